@@ -433,6 +433,25 @@ pub fn configs(thorough: bool) -> Vec<(String, Vec<Vec<Call>>, usize)> {
         ],
         if thorough { 2 } else { 1 },
     ));
+    // rules nested close to the depth the text interfaces deliver (each fine alone): collide on
+    // any process-wide budget such as a shared recursion-depth counter
+    {
+        let deep = |k: &str, depth: usize| -> Value {
+            let t = format!("{}{}{}", format!("{{\"{}\":", k).repeat(depth), "[1]", "}".repeat(depth));
+            serde_json::from_str(&t).unwrap()
+        };
+        let r1 = Arc::new(deep("!", 100));
+        let r2 = Arc::new(deep("!!", 100));
+        v.push(("deep-chain-x2:depth-100".into(), vec![vec![Call { rule: r1.clone(), data: d1.clone() }], vec![Call { rule: r2.clone(), data: d2.clone() }]], 1));
+        if thorough {
+            let r3 = Arc::new(deep("cat", 50));
+            v.push((
+                "deep-chain-x3:depth-50".into(),
+                vec![vec![Call { rule: r3.clone(), data: d1.clone() }], vec![Call { rule: r3.clone(), data: d2.clone() }], vec![Call { rule: Arc::new(deep("!", 50)), data: d1.clone() }]],
+                1,
+            ));
+        }
+    }
     if thorough {
         v.push((
             "3-threads:reduce-some-in".into(),
